@@ -66,7 +66,44 @@ def run(ck):
 
 
 def run_impl(ck, thorough):
-    pass
+    tl = dict(lib_dirs=(ck_common(), ck_spec("cursor")), timeout=3000, heap="12g")
+    cases = ck.path("cases.ndjson")
+    cfg = "MC_gen.cfg" if thorough else "MC_gen_quick.cfg"
+    ck.tlc("stream", "StreamImpl", cfg, label="I=>P on every bounded behaviour + scenario generation", env={"VERIF_CASES": cases}, **tl)
+    if not thorough:
+        pass
+    un = {"VERIF_CASES": ck.path("unused")}
+    ck.tlc("stream", "StreamImpl", "MC_bytes.cfg", label="I=>P, reader with Bytes()", env=un, **tl)
+    ck.tlc("stream", "StreamImpl", "MC_mem.cfg", label="I=>P incl. memory bound with zero slack, free-immediately discipline", env=un, **tl)
+    ck.tlc("stream", "StreamImpl", "MC_defect_shiftlen.cfg", label="model of pre-fix ShiftLen is rejected by P", expect_violation="Refines", env=un, **tl)
+    ck.tlc("stream", "StreamImpl", "MC_defect_guardsel.cfg", label="model of pre-fix Lexeme/Skip is rejected by P", expect_violation="Refines", env=un, **tl)
+    ck.tlc("stream", "StreamImpl", "MC_finding_lexeme.cfg", label="recorded finding: watched Lexeme slices are overwritten in the model too",
+           expect_violation="Refines", env=un, **tl)
+    ck.cov["exhaustive"] = True
+    ck.cov["constants"] = {"cfg": cfg, "L": 5 if thorough else 4, "Sizes": [0, 2, 4] if thorough else [0, 2], "Depth": 6, "MaxPeek": 2,
+                           "MaxMove": 2, "MaxChunk": 3, "MaxZero": 1, "EndKinds": ["eof", "fail"]}
+    s1 = ck.drive("stream", "replay", "-cases", cases, "-out", ck.path("replay.ndjson"), "-sample", 400 if thorough else 150)
+    if s1["cases"] == 0:
+        ck.fatal("generator produced no scenarios")
+    ck.log("replayed %d model behaviours on the code, %d differ from StreamImpl" % (s1["executions"], s1["mismatches"]))
+    ck.cov["evaluations"] += s1["executions"]
+    ck.cov["distinct_nontrivial"] += s1["distinct_nontrivial"]
+    ck.cov["rule"] += ("replay: every depth-6 behaviour (calls + reader schedule) that TLC reaches in StreamImpl's bounded state graph and that "
+                       "contains at least two Reader.Read calls, executed on the real StreamLexer with a scripted reader; results compared with the model's. ")
+    ck.cov["samples"] += (s1.get("samples") or [])[:1]
+    if s1["mismatches"]:
+        ck.cov["model_drift"] = (s1.get("drift_samples") or [])[:3]
+    judge(ck, ck.validate("stream", "StreamTrace", "StreamTrace.cfg", ck.path("replay.ndjson"), extra_dirs=EXTRA), "replay of a StreamImpl behaviour")
+
+
+def ck_common():
+    import vcheck
+    return vcheck.COMMON
+
+
+def ck_spec(d):
+    import vcheck
+    return os.path.join(vcheck.SPEC, d)
 
 
 def replay(ck, path):
